@@ -38,6 +38,7 @@ type frame struct {
 	panicOrd int
 	curBlock *ssa.BasicBlock
 	curIdx   int
+	lookupState *State
 }
 
 func (f *frame) pos(p token.Pos) string {
@@ -131,6 +132,25 @@ func (f *frame) rpo() []*ssa.BasicBlock {
 // lookupVar finds the SSA value of a source-level variable as seen at the entry of block b
 // (phis of b win), using phi comments, DebugRefs in dominating blocks, parameters and free variables.
 func (f *frame) lookupVar(name string, b *ssa.BasicBlock, phiOverride map[*ssa.Phi]Val) (Val, bool) {
+	if v, ok := f.lookupVar0(name, b, phiOverride); ok {
+		return v, true
+	}
+	// address-taken locals and named results live in Allocs: read their current value
+	if f.lookupState != nil {
+		for _, blk := range f.fn.Blocks {
+			for _, in := range blk.Instrs {
+				if a, ok := in.(*ssa.Alloc); ok && a.Comment == name {
+					if p, ok := f.vals[a]; ok {
+						return f.c.loadPtr(f.lookupState, p, elemType(a.Type())), true
+					}
+				}
+			}
+		}
+	}
+	return Val{}, false
+}
+
+func (f *frame) lookupVar0(name string, b *ssa.BasicBlock, phiOverride map[*ssa.Phi]Val) (Val, bool) {
 	for _, in := range b.Instrs {
 		phi, ok := in.(*ssa.Phi)
 		if !ok {
@@ -208,6 +228,14 @@ func (f *frame) lookupVarAt(name string, b *ssa.BasicBlock, idx int) (Val, bool)
 		}
 	}
 	return f.lookupVar(name, b, nil)
+}
+
+// withState runs a lookup with the state that alloc-backed variables are read from.
+func (f *frame) withState(st *State, fn func() (Val, bool)) (Val, bool) {
+	saved := f.lookupState
+	f.lookupState = st
+	defer func() { f.lookupState = saved }()
+	return fn()
 }
 
 func identName(d *ssa.DebugRef) string {
@@ -513,7 +541,9 @@ func (f *frame) loopSpec(h *ssa.BasicBlock) *LoopSpec {
 func (f *frame) loopEnv(h *ssa.BasicBlock, st *State, override map[*ssa.Phi]Val) *Env {
 	c := f.c
 	return &Env{c: c, vars: f.ghostVars(), cur: st, old: c.entry, pkg: f.fn.Pkg.Pkg, guard: st.reach,
-		lookup: func(name string) (Val, bool) { return f.lookupVar(name, h, override) }}
+		lookup: func(name string) (Val, bool) {
+			return f.withState(st, func() (Val, bool) { return f.lookupVar(name, h, override) })
+		}}
 }
 
 // ghostVars: the ghost parameters of the function under verification (top-level frame only).
